@@ -124,3 +124,86 @@ theorem applyInvert_total (pts : List (R × R)) (total : S) (cols : Nat) (l : Li
 end
 
 end Rosu.PipelineManiaConvert
+
+namespace Rosu.PipelineManiaConvert
+
+theorem mapM_some_mem {α β : Type} (f : α → Option β) :
+    ∀ l : List α, (∀ a ∈ l, ∃ b, f a = some b) → ∃ r, l.mapM f = some r := by
+  intro l
+  induction l with
+  | nil => intro _; exact ⟨[], rfl⟩
+  | cons a l ih =>
+    intro hf
+    obtain ⟨b, hb⟩ := hf a (List.mem_cons_self ..)
+    obtain ⟨r, hr⟩ := ih (fun a' ha' => hf a' (List.mem_cons_of_mem _ ha'))
+    exact ⟨b :: r, by simp [List.mapM_cons, hb, hr]⟩
+
+/-! ## Random: the shuffle is a permutation of the columns -/
+
+theorem insertKeyed_perm (p : Int × Nat) : ∀ l, (insertKeyed p l).Perm (p :: l) := by
+  intro l
+  induction l with
+  | nil => exact List.Perm.refl _
+  | cons q qs ih =>
+    unfold insertKeyed
+    split
+    · exact (List.Perm.cons q ih).trans (List.Perm.swap p q qs)
+    · exact List.Perm.refl _
+
+theorem foldl_insertKeyed_perm : ∀ (l acc : List (Int × Nat)),
+    (l.foldl (fun acc p => insertKeyed p acc) acc).Perm (acc ++ l) := by
+  intro l
+  induction l with
+  | nil => intro acc; simp
+  | cons p ps ih =>
+    intro acc
+    simp only [List.foldl_cons]
+    refine (ih _).trans ?_
+    refine (List.Perm.append_right ps (insertKeyed_perm p acc)).trans ?_
+    simp only [List.cons_append]
+    exact (List.perm_middle (l₁ := acc) (a := p) (l₂ := ps)).symm
+
+theorem csDraws_length : ∀ (n : Nat) (s : Rosu.Rng.Csharp), (csDraws n s).length = n := by
+  intro n
+  induction n with
+  | zero => intro s; rfl
+  | succ n ih => intro s; simp [csDraws, ih]
+
+/-- **`shuffled_columns` is a permutation of `0..n`**, for every seed -/
+theorem shuffledColumns_perm (seed : Int) (n : Nat) : (shuffledColumns seed n).Perm (List.range n) := by
+  unfold shuffledColumns
+  have h := (foldl_insertKeyed_perm ((csDraws n (Rosu.Rng.Csharp.new seed)).zip (List.range n)) []).map (·.2)
+  simp only [List.nil_append] at h
+  refine h.trans ?_
+  rw [List.map_snd_zip (by rw [csDraws_length]; simp)]
+
+/-- the checked index `shuffled_columns[old_column]` succeeds for every column below `n` and yields
+a column below `n` -/
+theorem shuffledColumns_get (seed : Int) (n c : Nat) (hc : c < n) :
+    ∃ c', (shuffledColumns seed n)[c]? = some c' ∧ c' < n := by
+  have hp := shuffledColumns_perm seed n
+  have hl : (shuffledColumns seed n).length = n := by rw [hp.length_eq, List.length_range]
+  have hlt : c < (shuffledColumns seed n).length := by omega
+  refine ⟨(shuffledColumns seed n)[c], List.getElem?_eq_getElem hlt, ?_⟩
+  have hm : (shuffledColumns seed n)[c] ∈ List.range n := hp.subset (List.getElem_mem hlt)
+  exact List.mem_range.mp hm
+
+section
+variable {R S : Type} [Rosu.SkillOps.FOps R] [Rosu.SkillOps.FOps S] (P : Rosu.PipelineMania.PrepOps R S) (X : XOps R S)
+
+/-- **`apply_random_to_beatmap` never panics** when every object's column is below `n` (which
+`ManiaObject::column` guarantees for `n = total_columns`), and every object lands on the position
+of a column below `n` -/
+theorem applyRandom_total (seed : Int) (total : S) (n : Nat) (l : List (HitObj R S))
+    (hcol : ∀ h ∈ l, Rosu.PipelineMania.column P h.x total < n) :
+    ∃ r, applyRandom P X seed total n l = some r := by
+  unfold applyRandom
+  simp only
+  apply mapM_some_mem
+  intro h hh
+  obtain ⟨c', hc', _⟩ := shuffledColumns_get seed n _ (hcol h hh)
+  exact ⟨_, by rw [hc']; rfl⟩
+
+end
+
+end Rosu.PipelineManiaConvert
